@@ -3,11 +3,11 @@ import msuite
 import scopesuite
 
 PID = 'C06'
-TAGS = ['status', 'cancel', 'taskret', 'tfin', 'caught', 'spawn', 'cleanup']
+TAGS = ['status', 'cancel', 'taskret', 'tfin', 'caught', 'spawn', 'cleanup', 'stuck']
 RULE = ('(a) scope trees: nested (until-)scopes (depth <= 3, <= 3 children each, volatile or delayed), bodies and children that '
         'sleep/raise (regular and privileged types)/return, cancels from inside and from a separate activity after t time units '
         'and k postponements, deadlines and flags on a coarse time grid, everything wrapped in handlers that log what they catch; '
-        '(b) random valid whole-API programs (no usage errors); (c) one task cancelled repeatedly with different tokens / closed and then cancelled, before its first turn or later, awaited by several activities; (d) payloads that swallow their own cancellation (`except CancelTask`) or clean up with awaits, cancelled 1-3 times at different times; non-trivial = a task was cancelled or its status probed')
+        '(b) random valid whole-API programs (no usage errors); (c) one task cancelled repeatedly with different tokens / closed and then cancelled, before its first turn or later, awaited by several activities; (d) payloads that swallow their own cancellation (`except CancelTask`) or clean up with awaits, cancelled 1-3 times at different times; (e) awaiters that start waiting for a task before its first turn, which is then cancelled before it starts; non-trivial = a task was cancelled or its status probed')
 
 
 def nontrivial(impl):
@@ -73,7 +73,29 @@ def suppressed_cancel(rng):
     return ['scenario', ['debug', 1], ['start', 0], ['flags', 1], ['locks', 0], ['roots'] + roots]
 
 
-SOURCES = [scopesuite.scope_tree, scopesuite.valid_scenario, scopesuite.cancel_cleanup, repeated_cancel, suppressed_cancel]
+def early_awaiter(rng):
+    """activities start waiting for a task in the very time step in which it is created - before its first turn - and the
+    task is then cancelled (or not) before it starts, by yet another activity; later awaiters join.  Every awaiter must get the
+    same outcome, the early ones included"""
+    from fractions import Fraction as F
+    tok = rng.sample(range(1, 10), 2)
+    owner = ['prog', ['scope', 0, ['none'], ['spawn', 0, 0, rng.choice([None, None, 1]), None, False,
+                                             ['prog', ['log', 1], ['sleep', rng.choice([0, 1])], ['ret', 7]]],
+                      ['sleep', rng.choice([0, 1, 3])]], ['status', 0]]
+    watcher = lambda i, pre: ['prog'] + pre + [['try', ['body', ['awaittask', 0], ['log', 30 + i]],
+                                                ['handler', ['pats', 'taskCancelled', 'taskClosed', 'anyException'], ['body', ['log', 40 + i]]]],
+                                               ['status', 0]]
+    others = [watcher(i, [['sleep', 0]] * rng.randint(0, 1)) for i in range(rng.randint(1, 3))]
+    if rng.random() < 0.8:
+        others.append(['prog'] + [['sleep', 0]] * rng.randint(0, 1) + [['cancel', 0, tok[0]]] +
+                      ([['sleep', rng.choice([0, F(1, 2)])], ['cancel', 0, tok[1]]] if rng.random() < 0.3 else []))
+    rng.shuffle(others)
+    late = [watcher(5, [['sleep', rng.choice([F(1, 2), 2, 5])]])] if rng.random() < 0.6 else []
+    # the owner first: the task exists when the others get their first turn, and has not had its own yet
+    return ['scenario', ['debug', 1], ['start', 0], ['flags', 1], ['locks', 0], ['roots', owner] + others + late]
+
+
+SOURCES = [scopesuite.scope_tree, scopesuite.valid_scenario, scopesuite.cancel_cleanup, repeated_cancel, suppressed_cancel, early_awaiter]
 
 
 def run(tier, seed, drv):
